@@ -55,4 +55,16 @@ LEVEL_TEXT = {
         "note": "Value order inside a key is compared as a multiset except that a single Add must append (the batch path uses an unstable sort). The write lock is probed (TryLock), not modelled, so removing it is visible.",
         "technique": "deterministic simulation: seeded scheduling inside read-modify-write sections + injected RocksDB call errors, step-by-step model and porcupine linearizability",
     },
+    "C08": {
+        "text": "Chains of diffs between seeded selections of a generated pool (records twice under one key, changing subnet sets so range points move), preprocessed with the real preprocessor, applied in seeded line order with the real rdb.ApplyDiff on real RocksDB (v1 and v2 keys) and compared by full dump with a fresh compile of the target. Faults: an undeliverable line at a seeded position, a failing low-level RocksDB call, a reader error mid-diff - the diff must fail as a whole and the dump must equal the dump before it (a RocksDB error the operation survives must still give the right database). Evidence, not proof.",
+        "design_ref": "§5.4",
+        "note": "Sequential by nature (no scheduler): what is simulated is the history of diffs and the I/O and storage faults. Equality is per key as a multiset of values.",
+        "technique": "deterministic simulation of diff histories with injected reader / RocksDB faults; full-dump equality and unchanged-on-failure oracle",
+    },
+    "C09": {
+        "text": "The stream facet: the real PreprocReader under seeded consumer buffer sizes, seeded short reads and an injected error of the source reader, with the range-point producer goroutines scheduled at their chunk sends; the output must hold exactly the lines of a whole-buffer run, compile to the same database as the original (v1/v2), be idempotent, surface a source error and terminate. The per-line text normal form round trip is piggy-backed input generation and is labelled as such. Evidence, not proof.",
+        "design_ref": "§5.5",
+        "note": "Database equality is taken on the sequential codec's output (C07 relates the real compiler to it). Two genuine defects found and fixed: a swallowed source error (stream facet) and the lost wildcard of SVCB/HTTPS owners (found by the piggy-backed round trip).",
+        "technique": "deterministic simulation of stream segmentation, source faults and producer scheduling around the streaming preprocessor; database-equality oracle",
+    },
 }
